@@ -23,6 +23,15 @@ CHECKS = {
     "C07": ("fault_enumeration", "stateful property-based fault injection (Hypothesis rule-based state machine, invariants + post-script probes)",
             "Generated fault scripts (refusals, latencies, EOF, reset, garbage, bad CRC, truncation, undecodable payloads, write faults, unencodable messages, raising subscribers, external resets, two faults in one instant) against a live socket; invariant: never two open connections, no dead client task; after the network heals the client must be connected within 11 s of virtual time, deliver a probe frame and write a probe command, and have closed every abandoned connection.",
             "healing bound 11 s virtual; desynchronised inbound streams are dropped by the simulated console before probing; " + TRUST),
+    "C09": ("exploration", "property-based testing (Hypothesis @given over installation x console behaviour, reference handshake model)",
+            "Generated installations (1..4 ACs, 0..16 zones, AT4 bitmap / old single / old multi-AC, AT5 ranges and zero-zone echo) and console behaviours (delays, segmentation, unsolicited / duplicate / unknown / foreign-addressed frames, silence from step k, connect latency below/above 5 s) drive connect()+init() against a simulated console; request order, return value and time of init(), and the exposed ACs/zones/getters are compared with a reference handshake model and reference object model.",
+            "installations are self-consistent; answer instants never tie exactly with the 5 s deadline; " + TRUST),
+    "C10": ("exploration", "property-based testing (Hypothesis-generated frame histories, reference object model)",
+            "Generated histories of AC / zone / timer / version / error frames (any entity order, repeats, partial frames, unknown ids, all defined enum values) are pushed by a simulated console at an initialised client; after every frame every public getter is compared with a reference model written from the API docstrings and vendor tables.",
+            "only defined protocol values; expected error text = latest text the console sent for that AC; " + TRUST),
+    "C12": ("exploration", "property-based testing (Hypothesis-generated histories with subscription changes, per-callable invocation bounds from the reference model)",
+            "Generated frame histories (biased to exact repeats and single-attribute changes) interleaved with subscribe / double-subscribe / unsubscribe over pools of callables per scope, some raising; for every frame and callable the invocation count must lie between the lower bound (exposed change => >= 1) and the upper bound (identical record => 0; at most once per changed record) with the right identifier, AC-state subscribers never hear zone-only changes, unsubscribed callables are never called, and reception continues.",
+            "frames differing only in unexposed bits may or may not notify; invocation order not compared; " + TRUST),
     "C13": ("exploration", "exhaustive cut enumeration + property-based testing (metamorphic relation)",
             "Generated frame streams are delivered under every single cut, every pair (<= 40 bytes; thorough: every <= 3 cuts for <= 64 bytes), generated multi-cuts and byte-by-byte, with generated scheduling between segments; delivery must equal the unsegmented delivery and the generated messages, without reset.",
             "frames come from the library's encoder (round trip is C03); " + TRUST),
